@@ -35,11 +35,24 @@ func suiteDeltaEff(h *H) {
 		if i%5 == 0 {
 			k = 0
 		}
+		if i%4 == 1 && k == 0 {
+			k = 1
+		}
 		desc := ""
 		for e := 0; e < k; e++ {
 			pos := h.rng.Intn(len(target) + 1)
 			m := h.pick(1, 1, 3, 17, 100, 1000, 5000)
-			switch h.rng.Intn(6) {
+			if i%4 == 1 && e == 0 {
+				// one long run of new data (longer than the block length plus the sender's 256 KiB flush unit), with
+				// known data before and after it
+				m = h.pick(270*1024, 300*1024+7, 700*1024)
+			}
+			kind := h.rng.Intn(6)
+			if m > 100000 {
+				kind = h.pick(0, 2, 3)
+				pos = h.rng.Intn(len(target)/3 + 1)
+			}
+			switch kind {
 			case 0: // insert
 				target = append(target[:pos:pos], append(h.bytes(m), target[pos:]...)...)
 				edited += m
